@@ -488,7 +488,8 @@ class TopWriter(object):
         success = self.subwriter.write(record)
         if success:
             self.NW += 1
-        return success
+        # Report "full" right after the last allowed record so that the caller stops reading its input
+        return success and self.NW < self.top_count
 
     def finish(self):
         self.subwriter.finish()
@@ -739,7 +740,7 @@ def dummy_wrapper_for_exec(query_context, user_namespace, LIKE, UNNEST, ANY_VALU
 
     NR = 0
     NU = 0
-    stop_flag = False
+    stop_flag = query_context.top_count == 0 # Nothing can be written with "LIMIT 0", so there is no need to read the input
 
     while not stop_flag:
         record_a = query_context.input_iterator.get_record()
